@@ -252,6 +252,71 @@ pub fn exec_op<'tx>(tx: &Tx<'tx>, op: &'tx Op, owned: bool) -> Ret {
     }
 }
 
+/// A reader that calls mutators: every one of them must be refused (and, checked by the caller's
+/// next dump, must leave the reader's view alone).  Handles are obtained by name and through the
+/// listing iterators.  Returns the calls that were NOT refused.
+pub fn reader_mutator_attempts(tx: &Tx, want: &BucketM) -> Result<Vec<String>, String> {
+    fn absent(m: &BucketM) -> Vec<u8> {
+        let mut n = b"~ro-absent".to_vec();
+        while m.items.contains_key(&n) {
+            n.push(b'~');
+        }
+        n
+    }
+    fn attempts(b: &Bucket, sub: &BucketM, how: &str, depth: usize, bad: &mut Vec<String>) {
+        let a = absent(sub);
+        if b.get_or_create_bucket(a.clone()).is_ok() {
+            bad.push(format!("Bucket::get_or_create_bucket(absent name) on a handle obtained {}", how));
+        }
+        if b.put(a.clone(), b"x".to_vec()).is_ok() {
+            bad.push(format!("Bucket::put(new key) on a handle obtained {}", how));
+        }
+        if b.create_bucket(a.clone()).is_ok() {
+            bad.push(format!("Bucket::create_bucket(absent name) on a handle obtained {}", how));
+        }
+        if let Some((k, _)) = sub.items.iter().find(|(_, it)| matches!(it, Item::Kv(_))) {
+            if b.put(k.clone(), b"changed-by-a-reader".to_vec()).is_ok() {
+                bad.push(format!("Bucket::put(existing key) on a handle obtained {}", how));
+            }
+            if b.delete(k.clone()).is_ok() {
+                bad.push(format!("Bucket::delete(existing key) on a handle obtained {}", how));
+            }
+        }
+        if let Some((n, Item::Bucket(inner))) = sub.items.iter().find(|(_, it)| matches!(it, Item::Bucket(_))) {
+            if depth < 2 {
+                if let Some((_, nb)) = b.buckets().find(|(x, _)| x.name() == n.as_slice()) {
+                    attempts(&nb, inner, &format!("{} and then by listing its parent", how), depth + 1, bad);
+                }
+            }
+            if b.delete_bucket(n.clone()).is_ok() {
+                bad.push(format!("Bucket::delete_bucket(existing name) on a handle obtained {}", how));
+            }
+        }
+    }
+    guarded(|| {
+        let mut bad = vec![];
+        let a = absent(want);
+        if tx.get_or_create_bucket(a.clone()).is_ok() {
+            bad.push("Tx::get_or_create_bucket(absent name)".to_string());
+        }
+        if tx.create_bucket(a.clone()).is_ok() {
+            bad.push("Tx::create_bucket(absent name)".to_string());
+        }
+        if let Some((name, Item::Bucket(sub))) = want.items.iter().find(|(_, it)| matches!(it, Item::Bucket(_))) {
+            if let Some((_, b)) = tx.buckets().find(|(n, _)| n.name() == name.as_slice()) {
+                attempts(&b, sub, "from Tx::buckets()", 0, &mut bad);
+            }
+            if let Ok(b) = tx.get_bucket(name.clone()) {
+                attempts(&b, sub, "by name", 0, &mut bad);
+            }
+            if tx.delete_bucket(name.clone()).is_ok() {
+                bad.push("Tx::delete_bucket(existing name)".to_string());
+            }
+        }
+        bad
+    })
+}
+
 /// Like `exec_op`, but the bucket the operation addresses is reached through the listing
 /// iterators (`tx.buckets()`, `bucket.buckets()`) instead of by name.  Only for non-root paths.
 pub fn exec_op_listed<'tx>(tx: &Tx<'tx>, op: &'tx Op) -> Option<Ret> {
